@@ -9,11 +9,15 @@
 //! with "violation" != null on stdout), 4 usage error.
 
 mod adapter;
+mod big;
+mod borrowmx;
+mod convert;
 mod engine;
 mod faults;
 mod forge;
 mod guard;
 mod history;
+mod iterdestroy;
 mod model;
 mod ops;
 mod overflow;
@@ -101,6 +105,16 @@ fn main() -> std::process::ExitCode {
             }
         };
         out.rep
+    } else if args.workload == "borrow" {
+        borrowmx::run_borrow(seed, shard, args.u("nshards", 1), ops)
+    } else if args.workload == "convert" {
+        convert::run_convert(seed, shard, ops)
+    } else if args.workload == "iterdestroy-exhaustive" {
+        iterdestroy::run_iterdestroy_exhaustive::<worlds::wsmall::EcsWorld>(seed, shard, args.u("nshards", 1), args.u("nmax", 4) as usize, small)
+    } else if args.workload == "bigcap" {
+        big::run_bigcap(args.u("mode", 0))
+    } else if args.workload == "realoverflow" {
+        big::run_realoverflow()
     } else if args.workload == "forge" {
         match world.as_str() {
             "main" => forge::run_forge::<worlds::wmain::WMain>(seed, shard, ops, small),
